@@ -360,11 +360,19 @@ def fault_if(detector, key="temperature", bad=None, token="isolation-fault"):
         raise ProbeError(token)
 
 
-def fault2(detector, tag=None, token="tok", exc="ValueError", at_step=None, at_temp=None, armed=False):
+SAME_INSTANCE: dict = {}  # exception objects raised again as the very same instance (like a failed future's or a cached load error)
+
+
+def fault2(detector, tag=None, token="tok", exc="ValueError", at_step=None, at_temp=None, armed=False, same_instance=False):
     """Log the call; raise the chosen exception class (carrying a unique token) at the chosen (run, step) site if armed."""
     temp = getattr(detector.environment, "_temperature", None)
     _log({"kind": "fault_call", "tag": tag, "step": int(detector.pipeline_count), "run": temp})
     if armed and (at_step is None or int(detector.pipeline_count) == int(at_step)) and (at_temp is None or float(temp) == float(at_temp)):
+        if same_instance:
+            key = (exc, token)
+            if key not in SAME_INSTANCE:
+                SAME_INSTANCE[key] = TwoArgError(token, 42) if exc == "TwoArgError" else exc_class(exc)(token)
+            raise SAME_INSTANCE[key]
         if exc == "TwoArgError":
             raise TwoArgError(token, 42)
         raise exc_class(exc)(token)
